@@ -433,6 +433,18 @@ theorem trace_apply (ops : List Op) : ∀ (cs : List FTxn), FileWF cs → OpsWF 
 
 /-! ### recovery is idempotent -/
 
+theorem txnsWF_prefix : ∀ (a b : List FTxn) (pos : Nat), TxnsWF pos (a ++ b) → TxnsWF pos a := by
+  intro a
+  induction a with
+  | nil => intro _ _ _; trivial
+  | cons t a ih => intro b pos h; exact ⟨h.1, ih b _ h.2⟩
+
+theorem fileWF_take (cs : List FTxn) (ops : List Op) (hcs : FileWF cs) (hops : OpsWF cs ops)
+    (n : Nat) : FileWF (cs ++ (newCommits cs ops).take n) := by
+  have h := (trace_apply ops cs hcs hops).2.1
+  rw [← List.take_append_drop n (newCommits cs ops), ← List.append_assoc] at h
+  exact txnsWF_prefix _ _ 4 h
+
 theorem isClean_ext {r r' : Recovered} {p : List FTxn} (h : r.IsClean p) (h' : r'.IsClean p)
     (hh : r'.how = .eof) (hs : r'.saved = none) : r' = { r with how := .eof, saved := none } := by
   obtain ⟨a1, a2, a3, a4, a5⟩ := h
@@ -442,7 +454,7 @@ theorem isClean_ext {r r' : Recovered} {p : List FTxn} (h : r.IsClean p) (h' : r
 
 /-- opening the recovered file once more finds exactly the same state, with nothing to cut off -/
 theorem recover_idempotent_of_clean (b : Bytes) (r : Recovered) (p : List FTxn) (hp : FileWF p)
-    (h : recover b = .ok r) (hc : r.IsClean p) :
+    (_h : recover b = .ok r) (hc : r.IsClean p) :
     recover r.bytes = .ok { r with how := .eof, saved := none } := by
   obtain ⟨r', h1, h2, h3, h4⟩ := recover_clean_eof p hp
   have h5 : recover r.bytes = .ok r' := by rw [hc.1]; exact h1
